@@ -2,6 +2,7 @@ package main
 
 import (
 	"fmt"
+	"regexp"
 	"strconv"
 	"strings"
 )
@@ -225,16 +226,18 @@ func (e *Env) segsTerm(segs []Seg) string {
 				okLen = false
 			}
 		}
+		var facts []string
 		if okLen && len(parts) > 0 {
 			sum := parts[0]
 			if len(parts) > 1 {
 				sum = "(+ " + strings.Join(parts, " ") + ")"
 			}
-			e.D.axioms = append(e.D.axioms, tEq(tApp("slen", t), sum))
+			facts = append(facts, tEq(tApp("slen", t), sum))
 		} else {
-			e.D.axioms = append(e.D.axioms, tApp(">", tApp("slen", t), "0"))
+			facts = append(facts, tApp(">", tApp("slen", t), "0"))
 		}
-		e.D.axioms = append(e.D.axioms, tNot(tEq(t, "nilStr")))
+		facts = append(facts, tNot(tEq(t, "nilStr")))
+		e.termFacts[t] = facts
 	}
 	return t
 }
@@ -500,8 +503,32 @@ func (e *Env) keyAxioms(body string) []string {
 	if len(present) > 40 {
 		present = present[:40]
 	}
+	for _, t := range present {
+		out = append(out, e.termFacts[t]...)
+	}
+	// key terms vs literal constants present in the body
+	var litsPresent []string
+	ids := identSet(body)
+	for _, content := range e.D.litOrder {
+		if ids[e.D.lits[content]] {
+			litsPresent = append(litsPresent, content)
+		}
+	}
+	for _, t := range present {
+		for _, content := range litsPresent {
+			f, hyps, ok := e.segsEqualH(e.keyTerms[t], litSegs(content))
+			if !ok {
+				continue
+			}
+			name := e.D.lits[content]
+			ax := tEq(tEq(t, name), f)
+			if f == "false" {
+				ax = tNot(tEq(t, name))
+			}
+			out = append(out, tImplies(tAnd(hyps...), ax))
+		}
+	}
 	for i := 0; i < len(present); i++ {
-		// key vs literal constants present in the body
 		for j := i + 1; j < len(present); j++ {
 			f, hyps, ok := e.segsEqualH(e.keyTerms[present[i]], e.keyTerms[present[j]])
 			if !ok {
@@ -514,7 +541,103 @@ func (e *Env) keyAxioms(body string) []string {
 			out = append(out, tImplies(tAnd(hyps...), ax))
 		}
 	}
+	// drop facts mentioning quantifier-bound variables (they are only meaningful under their binder)
+	var keep []string
+	for _, f := range out {
+		if !e.mentionsBound(f) {
+			keep = append(keep, f)
+		}
+	}
+	return keep
+}
+
+var boundRe = regexp.MustCompile(`[A-Za-z0-9_.$]+!q[0-9]+`)
+
+func (e *Env) mentionsBound(f string) bool {
+	for _, id := range boundRe.FindAllString(f, -1) {
+		if _, ok := e.D.consts[id]; !ok {
+			return true
+		}
+	}
+	return false
+}
+
+// sexprSplit splits "a b c" (top-level s-expressions) into parts.
+func sexprSplit(s string) []string {
+	var out []string
+	i := 0
+	for i < len(s) {
+		for i < len(s) && (s[i] == ' ' || s[i] == '\n') {
+			i++
+		}
+		if i >= len(s) {
+			break
+		}
+		j := i
+		if s[i] == '(' {
+			d := 0
+			for j < len(s) {
+				if s[j] == '(' {
+					d++
+				} else if s[j] == ')' {
+					d--
+					if d == 0 {
+						j++
+						break
+					}
+				}
+				j++
+			}
+		} else {
+			for j < len(s) && s[j] != ' ' && s[j] != ')' && s[j] != '(' {
+				j++
+			}
+		}
+		out = append(out, s[i:j])
+		i = j
+	}
 	return out
+}
+
+// skolemize strips universal quantifiers in positive position of a goal: their bound
+// variables become fresh constants (the goal is negated in the query).
+func (e *Env) skolemize(goal string) string {
+	for {
+		if strings.HasPrefix(goal, "(forall ((") {
+			inner := goal[1 : len(goal)-1]
+			parts := sexprSplit(inner)
+			if len(parts) != 3 {
+				return goal
+			}
+			binders := sexprSplit(parts[1][1 : len(parts[1])-1])
+			for _, b := range binders {
+				bp := sexprSplit(b[1 : len(b)-1])
+				if len(bp) != 2 {
+					return goal
+				}
+				if _, ok := e.D.consts[bp[0]]; !ok {
+					e.D.consts[bp[0]] = bp[1]
+					e.D.constOrd = append(e.D.constOrd, bp[0])
+				}
+			}
+			goal = parts[2]
+			continue
+		}
+		if strings.HasPrefix(goal, "(=> ") {
+			parts := sexprSplit(goal[1 : len(goal)-1])
+			if len(parts) == 3 && strings.HasPrefix(parts[2], "(forall ((") {
+				goal = "(=> " + parts[1] + " " + e.skolemize(parts[2]) + ")"
+				continue
+			}
+			if len(parts) == 3 && strings.HasPrefix(parts[2], "(=> ") {
+				inner := e.skolemize(parts[2])
+				if inner != parts[2] {
+					goal = "(=> " + parts[1] + " " + inner + ")"
+				}
+			}
+		}
+		return goal
+	}
 }
 
 func sortStrings(xs []string) {
